@@ -6,9 +6,13 @@ VARIANTS = ['int,nojit', 'int,jit', 'int,true', 'repeat,nojit', 'repeat,jit']
 
 
 def run(ded, repo, tier):
-    driver.run_parallel(ded, [dict(module='contracts.iterutils_c', repo=repo, q='backoff_iter', variant=v, tier=tier,
-                                   clause_of={'*': 'backoff_contract'}) for v in VARIANTS])
+    specs = [dict(module='contracts.iterutils_c', repo=repo, q='backoff_iter', variant=v, tier=tier,
+                  clause_of={'*': 'backoff_contract'}) for v in VARIANTS]
+    specs.append(dict(module='contracts.backoff_default', repo=repo, q='backoff_iter', variant='default', tier=tier,
+                      clause_of={'*': 'default_count_last_is_stop'}))
+    driver.run_parallel(ded, specs)
     ded.assume('float arithmetic is treated as exact real arithmetic (rounding is covered only by the bounded check)')
-    ded.assume("count is an int >= 0 or 'repeat' in the proved variants; the default count (math.log/ceil) clause "
-               "'last value is stop' is decided by the bounded check only")
+    ded.assume("default count (count=None, factor > 1): math.log and math.ceil are given their exact real meaning "
+               "(c = ceil(log_f x): f**c >= x > f**(c-1)) and integer powers their defining equations (axioms); the rounding of "
+               "the floating-point logarithm is covered by the bounded check only")
     ded.trust('termination of the generator is not proved')
